@@ -8,7 +8,7 @@ static bool safech(unsigned char c) { return isalnum(c) || strchr(".@%+/=:-[]", 
 static std::string ns(const std::string &s) { return std::to_string(s.size()) + ":" + s + ","; }
 
 struct Case { std::string name, daemon, input; std::map<std::string, std::string> env; std::string sender; std::vector<std::string> rcpts; std::string body, body2; bool has_body2 = false; std::string morercpt; bool has_morercpt = false; bool partial_ok = false; bool framing_check = true; std::vector<int> want_codes; bool wellformed = true; int qstatus = 0; std::string qtext; bool qcrash = false;
-              std::vector<std::string> bodies; std::vector<int> expect_multi; /* per message: 0 ack, 5 permanent */ int expect_class = 0; /* 0 success, 4 temporary, 5 permanent, -1 protocol violation (no acknowledgement at all) */ int databytes = 0; bool realqueue = false; bool cut = false; std::string databytes_text; bool databytes_env = false; /* literal limit */ std::string rcpthosts; bool is_session = false; std::vector<std::string> sess_envs, sess_bodies; };
+              std::vector<std::string> bodies; std::vector<int> expect_multi; /* per message: 0 ack, 5 permanent */ int expect_class = 0; /* 0 success, 4 temporary, 5 permanent, -1 protocol violation (no acknowledgement at all) */ int databytes = 0; bool realqueue = false; bool cut = false; std::string databytes_text; bool databytes_env = false; /* literal limit */ std::string rcpthosts; bool stall = false; bool is_session = false; std::vector<std::string> sess_envs, sess_bodies; };
 
 static std::string smtp_session(const std::string &helo, const std::string &sender, const std::vector<std::string> &rc, const std::string &body_lf, bool quit = true) {
   std::string s = "HELO " + helo + "\r\nMAIL FROM:<" + sender + ">\r\n"; for (auto &r : rc) s += "RCPT TO:<" + r + ">\r\n";
@@ -33,6 +33,11 @@ static std::vector<Case> make_cases(const Config &cfg) {
     } else if (fam == "cut") {
       Case b0 = base(d);
       for (size_t k = 0; k < b0.input.size(); k++) { Case c = b0; c.name = std::string(d) + " disconnect-after-byte-" + std::to_string(k); c.input = b0.input.substr(0, k); c.cut = true; c.expect_class = -1; if (std::string(d) == "smtpd" && c.input.find("\r\n.\r\n") != std::string::npos) c.expect_class = 0; v.push_back(c); }
+    } else if (fam == "stall") {
+      // the client stops sending after every byte of a complete session but keeps the connection open: the daemon's read timeout must end the
+      // session; nothing may be queued or acknowledged for an incomplete message
+      Case b0 = base(d); size_t step = th ? 1 : 3;
+      for (size_t k = 0; k < b0.input.size(); k += step) { Case c = b0; c.name = std::string(d) + " client-silent-after-byte-" + std::to_string(k); c.input = b0.input.substr(0, k); c.cut = true; c.stall = true; c.expect_class = -1; if (std::string(d) == "smtpd" && c.input.find("\r\n.\r\n") != std::string::npos) c.expect_class = 0; v.push_back(c); }
     } else if (fam == "limits") {
       // body sizes around databytes
       for (int delta : {-1, 0, 1}) for (int viaenv : {0, 1}) { Case c = base(d); if (c.daemon == "qmqpd") continue; int lim = 40; std::string b(lim + delta - 1, 'x'); b += "\n"; c.body = b; c.databytes = viaenv ? -lim : lim; c.expect_class = delta > 0 ? 5 : 0;
@@ -179,12 +184,19 @@ struct C07 : Scenario {
     }
     start_daemon(w, env);
   }
-  int newmrhpid = 0; std::vector<std::string> saved_env;
+  int newmrhpid = 0; std::vector<std::string> saved_env; std::shared_ptr<Pipe> stallpipe; int stall_ticks = 0;
   void start_daemon(World &w, const std::vector<std::string> &env) {
-    std::map<int, int> fds; fds[0] = QmailEnv::preloaded_pipe(w, c->input); fds[1] = QmailEnv::sink(w, &out); fds[2] = QmailEnv::nullfd(w);
+    std::map<int, int> fds; fds[1] = QmailEnv::sink(w, &out); fds[2] = QmailEnv::nullfd(w);
+    if (c->stall) { int r, wr; w.k.make_pipe(&r, &wr, c->input.size() + 4096); w.k.ofd_ref(wr); stallpipe = w.k.ofds[wr]->pipe; stallpipe->buf = c->input; fds[0] = r; }
+    else fds[0] = QmailEnv::preloaded_pipe(w, c->input);
     dpid = w.spawn("/var/qmail/bin/qmail-" + c->daemon, {"qmail-" + c->daemon}, fds, UID_QMAILD, GID_NOFILES, "/", env);
   }
   bool on_quiescent(World &w) override {
+    if (c->stall && stallpipe) {   // everybody waits: let time pass until the daemon's timeout; if it still waits after two hours, hang up
+      if (stall_ticks++ < 2) { w.advance_clock(w.k.clock + 3600); w.counters["timeouts_waited"]++; return true; }
+      Proc *dp = nullptr; for (auto &pp : w.procs) if (pp && pp->vpid == dpid) dp = pp.get();
+      if (dp && dp->st == P_PENDING) w.soft_violation("C07:no-read-timeout:" + c->daemon, c->name + ": the daemon is still waiting for the silent client after two hours");
+      stallpipe->writers = 0; stallpipe.reset(); return true; }
     if (newmrhpid && !dpid) { Proc *np = nullptr; for (auto &pp : w.procs) if (pp && pp->vpid == newmrhpid) np = pp.get();
       if (np && (np->st == P_ZOMBIE || np->st == P_REAPED)) { if (np->status != 0 || !w.k.exists("/var/qmail/control/morercpthosts.cdb")) { w.violation("C08:qmail-newmrh-failed", "qmail-newmrh did not produce control/morercpthosts.cdb (status " + std::to_string(np->status) + ")"); return false; } start_daemon(w, saved_env); return true; } }
     return false;
